@@ -453,11 +453,11 @@ SUPPORT_INLINE_NODEBUG uint32_t clz_impl(const uint64_t& x) noexcept { return ui
 
 template<>
 [[nodiscard]]
-SUPPORT_INLINE_NODEBUG uint32_t ctz_impl(const uint8_t& x) noexcept { return uint32_t(__builtin_ctz(uint32_t(x) | 0x10u)); }
+SUPPORT_INLINE_NODEBUG uint32_t ctz_impl(const uint8_t& x) noexcept { return uint32_t(__builtin_ctz(uint32_t(x) | 0x100u)); }
 
 template<>
 [[nodiscard]]
-SUPPORT_INLINE_NODEBUG uint32_t ctz_impl(const uint16_t& x) noexcept { return uint32_t(__builtin_ctz(uint32_t(x) | 0x1000u)); }
+SUPPORT_INLINE_NODEBUG uint32_t ctz_impl(const uint16_t& x) noexcept { return uint32_t(__builtin_ctz(uint32_t(x) | 0x10000u)); }
 
 template<>
 [[nodiscard]]
